@@ -572,3 +572,36 @@ def aggcopy_cases(base_id=600000):
             cid += 1
             cases.append(_case(cid, prog, "bool", runs))
     return cases
+
+
+def flist_cases(base_id=700000):
+    """Directed family: `==`, `!=` and `contains` on lists of floats.  Equality of lists is element-wise equality of
+    the element type, which for floats is not equality of the bytes: -0.0 == 0.0, and a NaN equals nothing.  Every
+    pair of two-element lists over {0.0, -0.0, NaN, 1.5, +inf} that differ in at most one position, both float
+    widths; also one nesting level down (lists of lists of floats are not compared by the generator, so only the
+    flat form is asserted).  A list is never compared with itself here: roto answers `a == a` from the identity of
+    the handle (true also when a holds a NaN), the documentation does not say which it should be, so nothing is
+    asserted about it.  Expected values come from RotoSem (FEq)."""
+    cases = []
+    cid = base_id
+    vals = [A.fin(0, 0, 0), A.fin(1, 0, 0), {"c": "nan"}, A.fin(0, 3, -1), {"c": "inf", "s": 0}]
+    for ty in ("f64", "f32"):
+        lty = ["list", ty]
+        la = {"k": "list", "es": [A.host("in", ty, 0, []), A.host("in", ty, 1, [])]}
+        lb = {"k": "list", "es": [A.host("in", ty, 2, []), A.host("in", ty, 3, [])]}
+        ss = [A.let("a", lty, la), A.let("b", lty, lb),
+              A.host("emit", "bool", 10, [A.binop("eq", "flist", A.var("a"), A.var("b"))]),
+              A.host("emit", "bool", 11, [A.binop("ne", "flist", A.var("a"), A.var("b"))]),
+              A.host("emit", "bool", 13, [{"k": "lcall", "m": "contains", "ety": ty, "r": A.var("a"), "args": [A.host("in", ty, 4, [])]}])]
+        res = A.binop("eq", "flist", A.var("b"), A.var("a"))
+        prog = {"types": [], "fns": {"main": {"ps": [], "pts": [], "rt": "bool", "b": A.block(ss, res)}}}
+        runs = []
+        for x in vals:
+            for y in vals:
+                for z in vals:
+                    # a = [x, y], b = [x, z] and b = [z, y]; the needle is z
+                    runs.append([{"ty": ty, "v": v} for v in (x, y, x, z, z)])
+                    runs.append([{"ty": ty, "v": v} for v in (x, y, z, y, z)])
+        cid += 1
+        cases.append(_case(cid, prog, "bool", runs))
+    return cases
